@@ -171,7 +171,11 @@ func (P *Prog) lemmaVCs(lm *Lemma) ([]*VC, error) {
 		// mention the term so that E-matching sees it
 		hf := map[string]string{"Int": "hintI", "Str": "hintS", "Bool": "hintB"}[v.T.Sort]
 		if hf == "" {
-			return nil, fmt.Errorf("lemma %s hint: unsupported sort %s", lm.Name, v.T.Sort)
+			// any other sort: mention the term through an equality with a fresh constant
+			hn := fmt.Sprintf("hintc_%d", len(decls))
+			decls = append(decls, fmt.Sprintf("(declare-const %s %s)", hn, v.T.Sort))
+			body.WriteString(fmt.Sprintf("(assert (= %s %s))\n", hn, v.T.S))
+			continue
 		}
 		body.WriteString(fmt.Sprintf("(assert (%s %s))\n", hf, v.T.S))
 	}
